@@ -7,8 +7,8 @@ usage: python3 tools/kurbo2coq/demo_mutations.py [substring of a mutation name o
 import json, os, subprocess, sys, time
 
 VERIF = os.path.dirname(os.path.dirname(os.path.dirname(os.path.abspath(__file__))))
-WT = '/tmp/wt-tr'
-WORK = '/tmp/trw-demo'
+WT = os.environ.get('KV_DEMO_WT', '/tmp/wt-tr')
+WORK = os.environ.get('KV_DEMO_WORK', '/tmp/trw-demo')
 
 # (name, file, old, new, expected set of non-equal functions)
 MUTS = [
@@ -223,9 +223,73 @@ MUTS = [
     ('flatten QuadTo arm: u = i / step', 'kurbo/src/bezpath.rs',
      'let u = (i as f64) * step;', 'let u = (i as f64) / step;',
      {'bezpath.rs::flatten (loop body)'}),
+    # the CurveTo arm of flatten's loop body (consumed ToQuads, quad_buf, the `while` with `break` under the model's bound)
+    ('flatten CurveTo arm: the inner loop stops one vertex early (i == n)', 'kurbo/src/bezpath.rs',
+     '                            if i == n + 1 {', '                            if i == n {',
+     {'bezpath.rs::flatten (loop body)'}),
+    ('flatten CurveTo arm: u = (target + val_sum) * recip_val', 'kurbo/src/bezpath.rs',
+     'let u = (target - val_sum) * recip_val;', 'let u = (target + val_sum) * recip_val;',
+     {'bezpath.rs::flatten (loop body)'}),
+    ('flatten CurveTo arm: the remaining tolerance is not used for the pieces', 'kurbo/src/bezpath.rs',
+     'let params = q.estimate_subdiv(sqrt_remain_tol);', 'let params = q.estimate_subdiv(sqrt_tol);',
+     {'bezpath.rs::flatten (loop body)'}),
+    ('REFACTOR flatten CurveTo arm: a let for target - val_sum', 'kurbo/src/bezpath.rs',
+     'let u = (target - val_sum) * recip_val;', 'let d = target - val_sum;\n                            let u = d * recip_val;',
+     set()),
+    # flatten as a whole (the fold over the path around the step function)
+    ('flatten passes the tolerance itself as sqrt_tol (flips the whole function only)', 'kurbo/src/bezpath.rs',
+     '    let sqrt_tol = tolerance.sqrt();\n    let mut start_pt = None;', '    let sqrt_tol = tolerance;\n    let mut start_pt = None;',
+     {'bezpath.rs::flatten'}),
     ("dash_impl's initial phase does not toggle is_active", 'kurbo/src/stroke.rs',
      '        dash_remaining += dashes[dash_ix];\n        is_active = !is_active;', '        dash_remaining += dashes[dash_ix];\n        is_active = is_active;',
      {'stroke.rs::dash_impl (loop body)'}),
+    # CubicBez::nearest: the loop over the consumed ToQuads iterator (tr_drain of the tied `next`)
+    ('CubicBez::nearest keeps the later of two equally near pieces (< -> <=)', 'kurbo/src/cubicbez.rs',
+     '.map(|best_r| nearest.distance_sq < best_r)', '.map(|best_r| nearest.distance_sq <= best_r)',
+     {'cubicbez.rs::<CubicBez as ParamCurveNearest>::nearest'}),
+    ('CubicBez::nearest maps the piece parameter with t1 + t0', 'kurbo/src/cubicbez.rs',
+     'best_t = t0 + nearest.t * (t1 - t0);', 'best_t = t0 + nearest.t * (t1 + t0);',
+     {'cubicbez.rs::<CubicBez as ParamCurveNearest>::nearest'}),
+    ('ToQuads::next advances by two (flips next only: its users are proved against its specification)', 'kurbo/src/cubicbez.rs',
+     '        self.i += 1;\n        Some((t0, t1, result))', '        self.i += 2;\n        Some((t0, t1, result))',
+     {'cubicbez.rs::<ToQuads as Iterator>::next'}),
+    ('PathSeg::nearest reverses the line first', 'kurbo/src/bezpath.rs',
+     'PathSeg::Line(line) => line.nearest(p, accuracy),', 'PathSeg::Line(line) => line.reversed().nearest(p, accuracy),',
+     {'bezpath.rs::<PathSeg as ParamCurveNearest>::nearest'}),
+    ('REFACTOR rename nearest -> nr in CubicBez::nearest', 'kurbo/src/cubicbez.rs',
+     '''            let nearest = q.nearest(p, accuracy);
+            if best_r
+                .map(|best_r| nearest.distance_sq < best_r)
+                .unwrap_or(true)
+            {
+                best_t = t0 + nearest.t * (t1 - t0);
+                best_r = Some(nearest.distance_sq);''',
+     '''            let nr = q.nearest(p, accuracy);
+            let d = nr.distance_sq;
+            if best_r
+                .map(|best_r| d < best_r)
+                .unwrap_or(true)
+            {
+                best_t = t0 + nr.t * (t1 - t0);
+                best_r = Some(d);''',
+     set()),
+    # dash_impl as a whole (the loop around the step function, the DashIterator literal)
+    ("dash_impl's loop condition skips an exhausted *on* interval instead (flips the whole function only)", 'kurbo/src/stroke.rs',
+     'while dash_remaining < 0.0 || (dash_remaining == 0.0 && !is_active) {', 'while dash_remaining < 0.0 || (dash_remaining == 0.0 && is_active) {',
+     {'stroke.rs::dash_impl'}),
+    ('dash_impl builds the iterator with input_done = true', 'kurbo/src/stroke.rs',
+     '        inner,\n        input_done: false,', '        inner,\n        input_done: true,',
+     {'stroke.rs::dash_impl'}),
+    ('dash_impl records the initial phase before the loop result (init_dash_ix: 0)', 'kurbo/src/stroke.rs',
+     '        init_dash_ix: dash_ix,', '        init_dash_ix: 0,',
+     {'stroke.rs::dash_impl'}),
+    # extend_reversed: the reversed index loop against the model's structural recursion
+    ('extend_reversed does not swap the control points of a cubic', 'kurbo/src/stroke.rs',
+     'PathEl::CurveTo(p1, p2, _) => out.curve_to(p2, p1, end),', 'PathEl::CurveTo(p1, p2, _) => out.curve_to(p1, p2, end),',
+     {'stroke.rs::extend_reversed'}),
+    ('extend_reversed also visits index 0', 'kurbo/src/stroke.rs',
+     'for i in (1..elements.len()).rev() {', 'for i in (0..elements.len()).rev() {',
+     {'stroke.rs::extend_reversed'}),
     # a helper without a model counterpart: every user follows
     ('helper Rect::new swaps y0/y1 (all users of the helper follow)', 'kurbo/src/rect.rs',
      'Rect { x0, y0, x1, y1 }\n    }', 'Rect { x0, y0: y1, x1, y1: y0 }\n    }',
